@@ -681,6 +681,18 @@ def f_vars_order():
     return list(vars(a)), list(vars(b).values()), list(a.__dict__.items()), vars(b)['body'], 'kind' in vars(a), len(vars(a))
 
 
+def _gen3(n):
+    yield (n, 0, 'a')
+    yield (n - 1, 1, 'b')
+    if n > 5:
+        yield (0, 2, 'c')
+
+
+def f_generator_consumers():
+    return (min(_gen3(3)), max(_gen3(9)), min(_gen3(9))[2], sorted(_gen3(7)), list(_gen3(1)), tuple(_gen3(6)), sum(x[0] for x in _gen3(9)),
+            dict((c, a) for a, b, c in _gen3(9)), min(_gen3(2), key=lambda t: t[1]), len(set(_gen3(9))), any(x[0] == 0 for x in _gen3(9)))
+
+
 def f_str_bits():
     s = bin(0b101101)[2:]
     return s, s.zfill(8), int(s[::-1], 2), s.count('1'), s.rfind('1'), s[:3] + '0' * 2, '{:08b}'.format(5), f'{5:08b}'[-3:], ''.join('1' if c == '0' else '0' for c in s)
